@@ -4,12 +4,14 @@
     PolAdvQc.v.  [F] is any field with the operations [K : sp_ops F]; where an order or ring law is
     needed the hypothesis [sp_laws K] is stated (it holds for the executed instance: spq_laws).
 
-    Not proved here (see the evidence, uncovered_clauses): rigid rotation for omega r^2/2 (tested
-    exactly), third-order agreement of the two schemes (asymptotic).  Refuted: termination of the
-    implicit iteration for arbitrary potentials (last theorem). *)
+    Not proved here (see the evidence, uncovered_clauses): third-order agreement of the two schemes
+    (asymptotic); that a spline space of degree >= 2 reproduces omega r^2/2 (the rigid-rotation
+    theorems take d_r phi = omega r, d_theta phi = 0 as facts about the evaluator; tested exactly).
+    Refuted: termination of the implicit iteration for arbitrary potentials
+    (pol_impl_terminates_refuted). *)
 From Coq Require Import List Arith ZArith QArith Qcanon Bool.
 Import ListNotations.
-From PGV Require Import SplineModel SplineTheory SplineQc PolAdvModel PolAdvTheory PolAdvQc.
+From PGV Require Import SplineModel SplineTheory SplineQc InterpModel InterpTheory PolAdvModel PolAdvTheory PolAdvConst PolAdvQc.
 
 (** both pairs of evaluation routines the wrappers dispatch to satisfy "entry points agree": a
     successful cross evaluation is the table of the scalar evaluations at the nodes *)
@@ -245,6 +247,232 @@ Theorem pol_impl_terminates_refuted :
     forall fuel, pol_step_impl Qc spq_ops E feq pi_ dt v B0 nul rPts qPts phi pol tol fuel = PolOutOfFuel.
 Proof. exact polq_impl_terminates_refuted. Qed.
 Print Assumptions pol_impl_terminates_refuted.
+
+
+(* ------------------------------------------------------------------------------------------ *)
+(** * second part: hypotheses discharged (PolAdvConst.v) *)
+
+(** constant coefficients => every evaluation with exactly one derivative is 0, for both evaluator families (from C07: the derivative basis functions sum to zero, sp_ders_sum_zero / sp_cu_ders_sum_zero); no hypothesis on knots or points beyond "the evaluation returns" *)
+Theorem pol_const_coeffs_der_zero :
+  forall (F : Type) (K : sp_ops F),
+       sp_laws K ->
+       forall (cu : bool) (x y : F) (s : pol_spl F) (c : F) (e1 e2 : nat) (v : F),
+       pol_const_coeffs F K (ps_c s) c -> (e1 + e2)%nat = 1%nat -> pol_scalar F (pol_dispatch F K cu) s x y e1 e2 = SpOk v -> v = sp0 K.
+Proof. exact (@pol_const_der_zero). Qed.
+Print Assumptions pol_const_coeffs_der_zero.
+
+(** a theta in [0, m) is fixed by the modulo *)
+Theorem pol_mod_fixes_domain :
+  forall (F : Type) (K : sp_ops F), sp_laws K -> forall x m : F, sp_trunc_ok F K -> sp_le K (sp0 K) x -> sp_lt K x m -> pol_modv F K x m = x.
+Proof. exact (@pol_modv_id). Qed.
+Print Assumptions pol_mod_fixes_domain.
+
+(** the modulo is idempotent: the extra % (2*pi) before the final evaluation changes nothing *)
+Theorem pol_mod_idempotent :
+  forall (F : Type) (K : sp_ops F),
+       sp_laws K -> forall x m : F, sp_trunc_ok F K -> sp_lt K (sp0 K) m -> pol_modv F K (pol_modv F K x m) m = pol_modv F K x m.
+Proof. exact (@pol_modv_idem). Qed.
+Print Assumptions pol_mod_idempotent.
+
+(** rigid rotation, explicit scheme: for a potential whose evaluator returns d_r phi = omega r and d_theta phi = 0 (phi = omega r^2/2 reproduced by the spline space, degree >= 2) both Heun stages see the same drift and the foot of node (i,j) is (theta_i - omega dt/B0 mod 2 pi, r_j) exactly; f is the spline of f at that point *)
+Theorem pol_rigid_rotation_expl :
+  forall (F : Type) (K : sp_ops F),
+       sp_laws K ->
+       forall (E : pol_ev F) (feq : F -> F -> F) (pi_ dt v B0 : F) (nul : bool) (rPts qPts : list F) (phi pol : pol_spl F) (omega : F),
+       speqb K B0 (sp0 K) = false ->
+       speqb K (pol_twopi F K pi_) (sp0 K) = false ->
+       rPts <> [] ->
+       (forall j : nat,
+        (j < pol_nr F rPts)%nat ->
+        speqb K (nth j rPts (sp0 K)) (sp0 K) = false /\ pol_inside F K (hd (sp0 K) rPts) (last rPts (sp0 K)) (nth j rPts (sp0 K)) = true) ->
+       forall D1 D2 : list (list F),
+       pol_cross F E rPts qPts phi 0 1 = SpOk D1 ->
+       pol_cross F E rPts qPts phi 1 0 = SpOk D2 ->
+       pol_grid_ok F rPts qPts D1 = true ->
+       pol_grid_ok F rPts qPts D2 = true ->
+       (forall i j : nat, (i < pol_nq F qPts)%nat -> (j < pol_nr F rPts)%nat -> pol_at F K D1 i j = spmul K omega (nth j rPts (sp0 K))) ->
+       (forall i j : nat, (i < pol_nq F qPts)%nat -> (j < pol_nr F rPts)%nat -> pol_at F K D2 i j = sp0 K) ->
+       (forall i j : nat,
+        (i < pol_nq F qPts)%nat ->
+        (j < pol_nr F rPts)%nat ->
+        pol_scalar F E phi (pol_modv F K (spsub K (nth i qPts (sp0 K)) (spmul K omega (spdiv K dt B0))) (pol_twopi F K pi_)) (nth j rPts (sp0 K)) 0 1 =
+        SpOk (spmul K omega (nth j rPts (sp0 K))) /\
+        pol_scalar F E phi (pol_modv F K (spsub K (nth i qPts (sp0 K)) (spmul K omega (spdiv K dt B0))) (pol_twopi F K pi_)) (nth j rPts (sp0 K)) 1 0 =
+        SpOk (sp0 K)) ->
+       forall fv : nat -> nat -> F,
+       (forall i j : nat,
+        (i < pol_nq F qPts)%nat ->
+        (j < pol_nr F rPts)%nat ->
+        pol_scalar F E pol
+          (pol_modv F K (pol_modv F K (spsub K (nth i qPts (sp0 K)) (spmul K omega (spdiv K dt B0))) (pol_twopi F K pi_)) (pol_twopi F K pi_))
+          (nth j rPts (sp0 K)) 0 0 = SpOk (fv i j)) ->
+       pol_step_expl F K E feq pi_ dt v B0 nul rPts qPts phi pol = SpOk (pol_rigid_result F K pi_ dt B0 rPts qPts omega fv).
+Proof. exact (@pol_rigid_expl). Qed.
+Print Assumptions pol_rigid_rotation_expl.
+
+(** rigid rotation, implicit scheme: the Euler foot is already the fixed point, the loop exits after its first sweep (norm 0); same feet and values as the explicit scheme *)
+Theorem pol_rigid_rotation_impl :
+  forall (F : Type) (K : sp_ops F),
+       sp_laws K ->
+       forall (E : pol_ev F) (feq : F -> F -> F) (pi_ dt v B0 : F) (nul : bool) (rPts qPts : list F) (phi pol : pol_spl F) (omega : F),
+       speqb K B0 (sp0 K) = false ->
+       speqb K (pol_twopi F K pi_) (sp0 K) = false ->
+       rPts <> [] ->
+       (forall j : nat,
+        (j < pol_nr F rPts)%nat ->
+        speqb K (nth j rPts (sp0 K)) (sp0 K) = false /\ pol_inside F K (hd (sp0 K) rPts) (last rPts (sp0 K)) (nth j rPts (sp0 K)) = true) ->
+       forall D1 D2 : list (list F),
+       pol_cross F E rPts qPts phi 0 1 = SpOk D1 ->
+       pol_cross F E rPts qPts phi 1 0 = SpOk D2 ->
+       pol_grid_ok F rPts qPts D1 = true ->
+       pol_grid_ok F rPts qPts D2 = true ->
+       (forall i j : nat, (i < pol_nq F qPts)%nat -> (j < pol_nr F rPts)%nat -> pol_at F K D1 i j = spmul K omega (nth j rPts (sp0 K))) ->
+       (forall i j : nat, (i < pol_nq F qPts)%nat -> (j < pol_nr F rPts)%nat -> pol_at F K D2 i j = sp0 K) ->
+       (forall i j : nat,
+        (i < pol_nq F qPts)%nat ->
+        (j < pol_nr F rPts)%nat ->
+        pol_scalar F E phi (pol_modv F K (spsub K (nth i qPts (sp0 K)) (spmul K omega (spdiv K dt B0))) (pol_twopi F K pi_)) (nth j rPts (sp0 K)) 0 1 =
+        SpOk (spmul K omega (nth j rPts (sp0 K))) /\
+        pol_scalar F E phi (pol_modv F K (spsub K (nth i qPts (sp0 K)) (spmul K omega (spdiv K dt B0))) (pol_twopi F K pi_)) (nth j rPts (sp0 K)) 1 0 =
+        SpOk (sp0 K)) ->
+       forall fv : nat -> nat -> F,
+       (forall i j : nat,
+        (i < pol_nq F qPts)%nat ->
+        (j < pol_nr F rPts)%nat ->
+        pol_scalar F E pol
+          (pol_modv F K (pol_modv F K (spsub K (nth i qPts (sp0 K)) (spmul K omega (spdiv K dt B0))) (pol_twopi F K pi_)) (pol_twopi F K pi_))
+          (nth j rPts (sp0 K)) 0 0 = SpOk (fv i j)) ->
+       forall tol : F,
+       sp_le K (sp0 K) tol ->
+       sp_le K (sp0 K) pi_ ->
+       forall fuel : nat,
+       pol_step_impl F K E feq pi_ dt v B0 nul rPts qPts phi pol tol (S fuel) =
+       PolRet (SpOk (pol_rigid_result F K pi_ dt B0 rPts qPts omega fv, 1%nat)).
+Proof. exact (@pol_rigid_impl). Qed.
+Print Assumptions pol_rigid_rotation_impl.
+
+(** const_phi_id with its hypotheses discharged (explicit): constant coefficients of phi, nodes in [0,2 pi) x [rPts[0],rMax], phi evaluable at the nodes, and the spline of f interpolates f at the nodes => f unchanged, feet = nodes *)
+Theorem pol_const_phi_id_expl_full_thm :
+  forall (F : Type) (K : sp_ops F),
+       sp_laws K ->
+       forall (cu : bool) (feq : F -> F -> F) (pi_ dt v B0 : F) (nul : bool) (rPts qPts : list F) (phi pol : pol_spl F) (c : F),
+       sp_trunc_ok F K ->
+       speqb K B0 (sp0 K) = false ->
+       sp_lt K (sp0 K) pi_ ->
+       rPts <> [] ->
+       (forall j : nat,
+        (j < pol_nr F rPts)%nat ->
+        speqb K (nth j rPts (sp0 K)) (sp0 K) = false /\ pol_inside F K (hd (sp0 K) rPts) (last rPts (sp0 K)) (nth j rPts (sp0 K)) = true) ->
+       (forall i : nat, (i < pol_nq F qPts)%nat -> sp_le K (sp0 K) (nth i qPts (sp0 K)) /\ sp_lt K (nth i qPts (sp0 K)) (pol_twopi F K pi_)) ->
+       pol_const_coeffs F K (ps_c phi) c ->
+       forall D1 D2 : list (list F),
+       pol_cross F (pol_dispatch F K cu) rPts qPts phi 0 1 = SpOk D1 ->
+       pol_cross F (pol_dispatch F K cu) rPts qPts phi 1 0 = SpOk D2 ->
+       forall fv : nat -> nat -> F,
+       (forall i j : nat,
+        (i < pol_nq F qPts)%nat ->
+        (j < pol_nr F rPts)%nat -> pol_scalar F (pol_dispatch F K cu) pol (nth i qPts (sp0 K)) (nth j rPts (sp0 K)) 0 0 = SpOk (fv i j)) ->
+       pol_step_expl F K (pol_dispatch F K cu) feq pi_ dt v B0 nul rPts qPts phi pol = SpOk (pol_nodes_result F K rPts qPts fv).
+Proof. exact (@pol_const_phi_id_expl_full). Qed.
+Print Assumptions pol_const_phi_id_expl_full_thm.
+
+(** the same for the implicit scheme; the loop makes exactly one sweep *)
+Theorem pol_const_phi_id_impl_full_thm :
+  forall (F : Type) (K : sp_ops F),
+       sp_laws K ->
+       forall (cu : bool) (feq : F -> F -> F) (pi_ dt v B0 : F) (nul : bool) (rPts qPts : list F) (phi pol : pol_spl F) (c : F),
+       sp_trunc_ok F K ->
+       speqb K B0 (sp0 K) = false ->
+       sp_lt K (sp0 K) pi_ ->
+       rPts <> [] ->
+       (forall j : nat,
+        (j < pol_nr F rPts)%nat ->
+        speqb K (nth j rPts (sp0 K)) (sp0 K) = false /\ pol_inside F K (hd (sp0 K) rPts) (last rPts (sp0 K)) (nth j rPts (sp0 K)) = true) ->
+       (forall i : nat, (i < pol_nq F qPts)%nat -> sp_le K (sp0 K) (nth i qPts (sp0 K)) /\ sp_lt K (nth i qPts (sp0 K)) (pol_twopi F K pi_)) ->
+       pol_const_coeffs F K (ps_c phi) c ->
+       forall D1 D2 : list (list F),
+       pol_cross F (pol_dispatch F K cu) rPts qPts phi 0 1 = SpOk D1 ->
+       pol_cross F (pol_dispatch F K cu) rPts qPts phi 1 0 = SpOk D2 ->
+       forall fv : nat -> nat -> F,
+       (forall i j : nat,
+        (i < pol_nq F qPts)%nat ->
+        (j < pol_nr F rPts)%nat -> pol_scalar F (pol_dispatch F K cu) pol (nth i qPts (sp0 K)) (nth j rPts (sp0 K)) 0 0 = SpOk (fv i j)) ->
+       forall (tol : F) (fuel : nat),
+       sp_le K (sp0 K) tol ->
+       pol_step_impl F K (pol_dispatch F K cu) feq pi_ dt v B0 nul rPts qPts phi pol tol (S fuel) =
+       PolRet (SpOk (pol_nodes_result F K rPts qPts fv, 1%nat)).
+Proof. exact (@pol_const_phi_id_impl_full). Qed.
+Print Assumptions pol_const_phi_id_impl_full_thm.
+
+(** interpolate-then-advect (PoloidalAdvection.step = compute_interpolant + kernel), constant potential, explicit scheme: composed with C08 ip_interp2d_exact, the nodal values fg are returned unchanged *)
+Theorem pol_interp_then_advect_const_expl :
+  forall (F : Type) (K : sp_ops F),
+       sp_laws K ->
+       forall (cu : bool) (feq : F -> F -> F) (pi_ dt v B0 : F) (nul : bool) (rPts qPts : list F) (phi : pol_spl F) (c : F) 
+         (kq : list F) (dq : nat) (kr : list F) (dr : nat) (fg w : list (list F)),
+       sp_trunc_ok F K ->
+       speqb K B0 (sp0 K) = false ->
+       sp_lt K (sp0 K) pi_ ->
+       rPts <> [] ->
+       (forall j : nat,
+        (j < pol_nr F rPts)%nat ->
+        speqb K (nth j rPts (sp0 K)) (sp0 K) = false /\ pol_inside F K (hd (sp0 K) rPts) (last rPts (sp0 K)) (nth j rPts (sp0 K)) = true) ->
+       (forall i : nat, (i < pol_nq F qPts)%nat -> sp_le K (sp0 K) (nth i qPts (sp0 K)) /\ sp_lt K (nth i qPts (sp0 K)) (pol_twopi F K pi_)) ->
+       pol_const_coeffs F K (ps_c phi) c ->
+       forall D1 D2 : list (list F),
+       pol_cross F (pol_dispatch F K cu) rPts qPts phi 0 1 = SpOk D1 ->
+       pol_cross F (pol_dispatch F K cu) rPts qPts phi 1 0 = SpOk D2 ->
+       ip_interp2d F K kq dq true qPts kr dr false rPts cu fg = SpOk w ->
+       ip_spans_in_range F K kq dq true cu qPts ->
+       ip_spans_in_range F K kr dr false cu rPts ->
+       pol_nq F qPts = ip_nbasis F K kq dq true cu ->
+       pol_nr F rPts = ip_nbasis F K kr dr false cu ->
+       pol_step_expl F K (pol_dispatch F K cu) feq pi_ dt v B0 nul rPts qPts phi {| ps_k1 := kq; ps_d1 := dq; ps_k2 := kr; ps_d2 := dr; ps_c := w |} =
+       SpOk (pol_fgrid_result F K rPts qPts fg).
+Proof. exact (@pol_interp_advect_const_expl). Qed.
+Print Assumptions pol_interp_then_advect_const_expl.
+
+(** the same for the implicit scheme *)
+Theorem pol_interp_then_advect_const_impl :
+  forall (F : Type) (K : sp_ops F),
+       sp_laws K ->
+       forall (cu : bool) (feq : F -> F -> F) (pi_ dt v B0 : F) (nul : bool) (rPts qPts : list F) (phi : pol_spl F) (c : F) 
+         (kq : list F) (dq : nat) (kr : list F) (dr : nat) (fg w : list (list F)),
+       sp_trunc_ok F K ->
+       speqb K B0 (sp0 K) = false ->
+       sp_lt K (sp0 K) pi_ ->
+       rPts <> [] ->
+       (forall j : nat,
+        (j < pol_nr F rPts)%nat ->
+        speqb K (nth j rPts (sp0 K)) (sp0 K) = false /\ pol_inside F K (hd (sp0 K) rPts) (last rPts (sp0 K)) (nth j rPts (sp0 K)) = true) ->
+       (forall i : nat, (i < pol_nq F qPts)%nat -> sp_le K (sp0 K) (nth i qPts (sp0 K)) /\ sp_lt K (nth i qPts (sp0 K)) (pol_twopi F K pi_)) ->
+       pol_const_coeffs F K (ps_c phi) c ->
+       forall D1 D2 : list (list F),
+       pol_cross F (pol_dispatch F K cu) rPts qPts phi 0 1 = SpOk D1 ->
+       pol_cross F (pol_dispatch F K cu) rPts qPts phi 1 0 = SpOk D2 ->
+       ip_interp2d F K kq dq true qPts kr dr false rPts cu fg = SpOk w ->
+       ip_spans_in_range F K kq dq true cu qPts ->
+       ip_spans_in_range F K kr dr false cu rPts ->
+       pol_nq F qPts = ip_nbasis F K kq dq true cu ->
+       pol_nr F rPts = ip_nbasis F K kr dr false cu ->
+       forall (tol : F) (fuel : nat),
+       sp_le K (sp0 K) tol ->
+       pol_step_impl F K (pol_dispatch F K cu) feq pi_ dt v B0 nul rPts qPts phi {| ps_k1 := kq; ps_d1 := dq; ps_k2 := kr; ps_d2 := dr; ps_c := w |}
+         tol (S fuel) = PolRet (SpOk (pol_fgrid_result F K rPts qPts fg, 1%nat)).
+Proof. exact (@pol_interp_advect_const_impl). Qed.
+Print Assumptions pol_interp_then_advect_const_impl.
+
+(** the executed int() is floor on non-negative rationals *)
+Theorem pol_trunc_ok_executed :
+  sp_trunc_ok Qc spq_ops.
+Proof. exact (@polq_trunc_ok). Qed.
+Print Assumptions pol_trunc_ok_executed.
+
+(** mod_2pi_range, unconditional at the executed instance *)
+Theorem pol_mod_2pi_range_executed :
+  forall x m : Qc, Q2Qc 0 < m -> exists y : Qc, polq_mod x m = SpOk y /\ Q2Qc 0 <= y /\ y < m.
+Proof. exact (@polq_mod_range). Qed.
+Print Assumptions pol_mod_2pi_range_executed.
 
 (* ------------------------------------------------------------------------------------------ *)
 (** non-vacuity: the executed instance on small inputs (degree-1 spaces, pi := 3, one theta node 3/2,
